@@ -229,9 +229,9 @@ def check(run: common.Run):
     modules = list(pool)
     reduced = pool[::6]
     pairs = [a + b for a, b in itertools.permutations(reduced, 2)]
-    modules += pairs[:: (4 if quick else 1)]
+    modules += pairs[:: (5 if quick else 1)]
     n_exh = len(modules)
-    nrand = 100 if quick else 3000
+    nrand = 80 if quick else 600
     modules += [k10.random_module(rnd, pool) for _ in range(nrand)]
     # a module that defines the same class name twice is outside the correspondence domain: the rules key
     # class members by (class name, member name) -- such modules stay in the end-to-end sweep
@@ -309,7 +309,7 @@ def check(run: common.Run):
             disagreements.append(shard[i])
 
     # ---- (d) deterministic sweep: the property oracle end to end under safe=True (seed-independent)
-    sweep = list(pool) + pairs[:: (4 if quick else 1)]
+    sweep = list(pool) + pairs[:: (5 if quick else 1)]
     sweep += UNDERSCORE_FAMILY
     corpus = load_corpus()
     failures, suppressed = [], Counter()
